@@ -28,6 +28,9 @@ type btr struct {
 	seqName string              // name of the ansi.Print parameter of print(), "" otherwise
 	glyph   string              // local holding the glyph cell of print()
 	cellVar string              // local holding a copy of a cell (`ch := vt.activeScreen[r][c]`)
+	tabsAcc string              // local slice `tabs := []column{}`
+	tabVar  string              // value variable of `for _, ts := range vt.tabStop`
+	tabIdx  string              // index variable of `for i := len(vt.tabStop) - 1; i >= 0; i -= 1`
 	unknown int
 }
 
@@ -84,6 +87,9 @@ func (t *btr) expr(e ast.Expr) (string, bool) {
 		}
 		return "", false
 	case *ast.Ident:
+		if t.tabVar != "" && x.Name == t.tabVar {
+			return ".tab", true
+		}
 		if k := t.loopIndex(x.Name); k >= 0 {
 			return fmt.Sprintf("(.lv %d)", k), true
 		}
@@ -130,6 +136,9 @@ func (t *btr) expr(e ast.Expr) (string, bool) {
 		}
 		return "", false
 	case *ast.IndexExpr:
+		if t.tabIdx != "" && t.src(x) == "vt.tabStop["+t.tabIdx+"]" {
+			return ".tab", true
+		}
 		// pm[k][0]
 		if in, ok := x.X.(*ast.IndexExpr); ok && t.pmName != "" && t.src(in.X) == t.pmName {
 			k, ok1 := intLit(in.Index)
@@ -341,6 +350,9 @@ func unparen(e ast.Expr) ast.Expr {
 }
 
 func (t *btr) forStmt(s *ast.ForStmt) string {
+	if r, ok := t.tabDown(s); ok {
+		return r
+	}
 	init, ok := s.Init.(*ast.AssignStmt)
 	if !ok || init.Tok != token.DEFINE || len(init.Lhs) != 1 || len(init.Rhs) != 1 || s.Cond == nil || s.Post == nil {
 		return t.unk(s)
@@ -410,7 +422,75 @@ func (t *btr) forStmt(s *ast.ForStmt) string {
 	return hdr + "\n " + body + ")"
 }
 
+func (t *btr) tabRange(s *ast.RangeStmt) (string, bool) {
+	// for _, ts := range vt.tabStop
+	if s.Tok != token.DEFINE || s.Key == nil || s.Value == nil || t.src(s.X) != "vt.tabStop" || t.src(s.Key) != "_" {
+		return "", false
+	}
+	v, ok := s.Value.(*ast.Ident)
+	if !ok || t.tabVar != "" || t.tabIdx != "" || len(t.loops) != 0 || t.loopIndex(v.Name) >= 0 {
+		return "", false
+	}
+	if _, shadow := t.locals[v.Name]; shadow {
+		return "", false
+	}
+	t.tabVar = v.Name
+	t.brkable = append(t.brkable, "for")
+	body := t.block(s.Body.List)
+	t.brkable = t.brkable[:len(t.brkable)-1]
+	t.tabVar = ""
+	return "(.forTabs\n " + body + ")", true
+}
+
+func (t *btr) tabDown(s *ast.ForStmt) (string, bool) {
+	// for i := len(vt.tabStop) - 1; i >= 0; i -= 1 — the body may use i only as vt.tabStop[i]
+	init, ok := s.Init.(*ast.AssignStmt)
+	if !ok || init.Tok != token.DEFINE || len(init.Lhs) != 1 || len(init.Rhs) != 1 || t.src(init.Rhs[0]) != "len(vt.tabStop) - 1" {
+		return "", false
+	}
+	v, ok := init.Lhs[0].(*ast.Ident)
+	if !ok || t.tabVar != "" || t.tabIdx != "" || len(t.loops) != 0 {
+		return "", false
+	}
+	if _, shadow := t.locals[v.Name]; shadow {
+		return "", false
+	}
+	if s.Cond == nil || t.src(s.Cond) != v.Name+" >= 0" || s.Post == nil {
+		return "", false
+	}
+	if p := t.src(s.Post); p != v.Name+" -= 1" && p != v.Name+"--" {
+		return "", false
+	}
+	// every use of i inside the body is vt.tabStop[i]
+	uses, asIndex := 0, 0
+	ast.Inspect(s.Body, func(n ast.Node) bool {
+		switch x := n.(type) {
+		case *ast.Ident:
+			if x.Name == v.Name {
+				uses++
+			}
+		case *ast.IndexExpr:
+			if t.src(x) == "vt.tabStop["+v.Name+"]" {
+				asIndex++
+			}
+		}
+		return true
+	})
+	if uses != asIndex {
+		return "", false
+	}
+	t.tabIdx = v.Name
+	t.brkable = append(t.brkable, "for")
+	body := t.block(s.Body.List)
+	t.brkable = t.brkable[:len(t.brkable)-1]
+	t.tabIdx = ""
+	return "(.forTabsDown\n " + body + ")", true
+}
+
 func (t *btr) rangeStmt(s *ast.RangeStmt) string {
+	if r, ok := t.tabRange(s); ok {
+		return r
+	}
 	// for v := range vt.activeScreen
 	if s.Tok != token.DEFINE || s.Value != nil || s.Key == nil || t.src(s.X) != "vt.activeScreen" {
 		return t.unk(s)
@@ -580,6 +660,29 @@ func (t *btr) assign(s *ast.AssignStmt) string {
 					t.glyph = id.Name
 					return ".skip"
 				}
+			}
+		}
+	}
+	// tab-stop slices
+	if len(t.loops) == 0 {
+		l, r := t.src(lhs), t.src(rhs)
+		if id, ok := lhs.(*ast.Ident); ok && s.Tok == token.DEFINE && r == "[]column{}" && t.tabsAcc == "" && t.tabVar == "" && t.tabIdx == "" {
+			if _, isLocal := t.locals[id.Name]; !isLocal {
+				t.tabsAcc = id.Name
+				return ".tabsNew"
+			}
+		}
+		if s.Tok == token.ASSIGN && t.tabsAcc != "" && l == t.tabsAcc && t.tabVar != "" && r == "append("+t.tabsAcc+", "+t.tabVar+")" {
+			return ".tabsAppendTab"
+		}
+		if s.Tok == token.ASSIGN && l == "vt.tabStop" && t.tabVar == "" && t.tabIdx == "" {
+			switch {
+			case t.tabsAcc != "" && r == t.tabsAcc:
+				return ".tabsStore"
+			case r == "[]column{}":
+				return ".tabsClear"
+			case r == "append(vt.tabStop, vt.cursor.col)":
+				return ".tabsPushCol"
 			}
 		}
 	}
@@ -861,7 +964,7 @@ func genBodies(c *ex.Ctx) {
 		{"csi.go", "ed"}, {"csi.go", "el"}, {"csi.go", "il"}, {"csi.go", "dl"}, {"csi.go", "dch"},
 		{"csi.go", "ech"}, {"csi.go", "cbt"}, {"csi.go", "tbc"}, {"csi.go", "vpa"}, {"csi.go", "vpr"},
 		{"csi.go", "hpa"}, {"csi.go", "hpr"}, {"csi.go", "rep"}, {"csi.go", "decstbm"},
-		{"esc.go", "ind"}, {"esc.go", "nel"}, {"esc.go", "ri"},
+		{"esc.go", "ind"}, {"esc.go", "nel"}, {"esc.go", "ri"}, {"esc.go", "hts"},
 		{"c0.go", "bs"}, {"c0.go", "ht"}, {"c0.go", "lf"}, {"c0.go", "vt"}, {"c0.go", "ff"}, {"c0.go", "cr"},
 		{"term.go", "scrollUp"}, {"term.go", "scrollDown"}, {"term.go", "print"}, {"term.go", "resize"},
 	}
